@@ -91,6 +91,8 @@ func (v *fnVC) memOrEntry(m string) T {
 
 func (v *fnVC) havocAll(why string) {
 	v.notes = append(v.notes, "havoc-all: "+why)
+	before := copyMap(v.cur)
+	defer v.keepPrivateCells(before)
 	for m := range v.memSrt {
 		if m == allocMem || m == deferMem || m == visMem || strings.HasPrefix(m, "L_") {
 			continue // ghost state and non-escaping locals are out of a callee's reach (the allocation set only grows)
@@ -267,8 +269,9 @@ func (v *fnVC) applyCall(c *ssa.CallCommon, x *ssa.Call, pos token.Pos, cond T) 
 	}
 	if con == nil {
 		inMod := callee != nil && callee.Pkg != nil && strings.HasPrefix(callee.Pkg.Pkg.Path(), modPrefix)
-		if c.IsInvoke() || inMod || callee == nil {
-			if v.con != nil && (len(v.con.Modifies) > 0 || v.con.Pure) {
+		extIface := c.IsInvoke() && pkg != "" && !strings.HasPrefix(pkg, modPrefix) // method of an external interface (reflect.Type, ...)
+		if (c.IsInvoke() && !extIface) || inMod || (callee == nil && !c.IsInvoke()) {
+			if _, claimed := v.frameAlts("0"); claimed {
 				v.oblige("frame.call", key+" has no contract", "false", pos)
 			}
 			v.havocAll("call without contract: " + key)
@@ -352,7 +355,7 @@ func (v *fnVC) bindResults(env *Env, rnames []string, results []T, tup *types.Tu
 
 // calleeFrameCheck: everything the callee may modify must be fresh or inside the caller's frame.
 func (v *fnVC) calleeFrameCheck(con *Contract, env *Env, key string, pos token.Pos) {
-	if v.con == nil || (len(v.con.Modifies) == 0 && !v.con.Pure) {
+	if _, claimed := v.frameAlts("0"); !claimed {
 		return
 	}
 	for _, m := range con.Modifies {
@@ -395,6 +398,7 @@ func copyMap(m map[string]T) map[string]T {
 
 // applyModifies havocs the memories named by the modifies items with a frame fact.
 func (v *fnVC) applyModifies(con *Contract, env *Env) {
+	beforeAll := copyMap(v.cur)
 	type item struct {
 		mem  string
 		pred func(a T) T
@@ -497,6 +501,9 @@ func (v *fnVC) applyModifies(con *Contract, env *Env) {
 		v.assume(fmt.Sprintf("(forall ((a Int)) (! (=> (not %s) (= (select %s a) (select %s a))) :pattern ((select %s a))))", or(in...), nm, old, nm))
 		v.cur[k] = nm
 	}
+	// frame items are field locations, maps, backing arrays or configuration trees: never the private cell
+	// of one of this function's variables (stated as ground facts so that no quantifier reasoning is needed)
+	v.keepPrivateCells(beforeAll)
 }
 
 func (v *fnVC) builtin(x *ssa.Call, b *ssa.Builtin) {
@@ -657,8 +664,11 @@ func (v *fnVC) ret(x *ssa.Return) {
 
 func (v *fnVC) entryEnv() *Env {
 	env := &Env{vars: map[string]bind{}, pkg: v.fn.Pkg.Pkg}
-	for _, p := range v.fn.Params {
+	for i, p := range v.fn.Params {
 		env.vars[p.Name()] = bind{v.vals[p], p.Type()}
+		if v.con != nil && i < len(v.con.Params) && v.con.Params[i] != "_" && v.con.Params[i] != "" {
+			env.vars[v.con.Params[i]] = bind{v.vals[p], p.Type()} // the contract's own names for the parameters
+		}
 	}
 	for _, fv := range v.fn.FreeVars {
 		env.vars[fv.Name()] = bind{v.val(fv), fv.Type()}
@@ -784,7 +794,11 @@ func (v *fnVC) loopHead(li *loopInfo, preds []*ssa.BasicBlock, conds []T) {
 		}
 		for n, val := range names {
 			if strings.HasPrefix(n, "&") {
-				pt := val.Type().Underlying().(*types.Pointer).Elem()
+				ptr, isPtr := val.Type().Underlying().(*types.Pointer)
+				if !isPtr {
+					continue
+				}
+				pt := ptr.Elem()
 				env.addrVars = append(env.addrVars, addrVar{n[1:], v.val(val), pt, v.spaceOf(val)})
 			}
 		}
@@ -910,7 +924,9 @@ func (v *fnVC) modSortsOfContract(con *Contract, x *ssa.Call, mod map[string]boo
 	callee := x.Call.StaticCallee()
 	if callee == nil {
 		for m := range v.memSrt {
-			mod[m] = true
+			if m != allocMem && m != deferMem && m != visMem && !strings.HasPrefix(m, "L_") {
+				mod[m] = true
+			}
 		}
 		return
 	}
